@@ -1492,7 +1492,7 @@ def budget(tier, prop=None):
         return {'runs': QUICK_RUNS.get(_BUDGET_PROP[0], 24000), 'wall': 70, 'chunk': 100, 'selftest': 8, 'minimise_s': 60,
                 'canary_runs': 8000, 'canary_wall': 60}
     return {'runs': 400000, 'wall': 900, 'chunk': 200, 'selftest': 24, 'minimise_s': 180,
-            'canary_runs': 8000, 'canary_wall': 60}
+            'canary_runs': 40000, 'canary_wall': 150}
 
 
 RULE = ('Each run: 1-3 seeded roots (untyped values, typed objects/lists/dicts, recording '
@@ -2039,10 +2039,12 @@ class C03Oracle(OracleBase):
     def before(self, step, op, pre):
         self._pre_partial = {}
         self._pre_keep = []
+        self._pre_paths = {}
         for root in self.forest.roots:
-            for n, _, _, _ in values.walk(root):
+            for n, _, _, path in values.walk(root):
                 if isinstance(n, pg.Symbolic):
                     self._pre_partial[id(n)] = n.allow_partial
+                    self._pre_paths[id(n)] = tuple(map(repr, path))
                     self._pre_keep.append(n)
 
     def _check_all(self, step, op, out):
@@ -2088,7 +2090,9 @@ class C03Oracle(OracleBase):
                 out.root_index >= len(self.forest.roots):
             return True
         root = self.forest.roots[out.root_index]
-        if scopes.get('allow_partial') is None and 'enable_type_check' not in scopes:
+        stores = op['k'] in ('l_setitem', 'l_append', 'l_insert', 'd_setitem', 'd_setattr',
+                             'o_setattr', 'd_setdefault', 'rebind')
+        if stores and scopes.get('allow_partial') is None and 'enable_type_check' not in scopes:
             for w in (out.written or []):
                 try:
                     container = pg.KeyPath(list(w[:-1])).query(root) if len(w) > 1 else root
@@ -2096,6 +2100,8 @@ class C03Oracle(OracleBase):
                     key = w[-1]
                     if not isinstance(stored, pg.Symbolic) or not stored.sym_partial:
                         continue
+                    if getattr(self, '_pre_paths', {}).get(id(stored)) == tuple(map(repr, w)):
+                        continue      # the value that was there already (made partial earlier)
                     if isinstance(container, pg.Object):
                         field = type(container).__schema__.get_field(key)
                         spec = field.value if field is not None else None
@@ -2145,6 +2151,12 @@ class C03Oracle(OracleBase):
         # values moved/copied out of partial trees stay allowed to be partial
         if out.root_index is not None and out.root_index < len(self.forest.roots):
             root = self.forest.roots[out.root_index]
+            if op['k'] in ('l_imul', 'l_iadd', 'l_extend', 'd_ior', 'd_update') and \
+                    any(id(n) in self.partial_ok for n in (pre_nodes[out.root_index]
+                                                          if out.root_index < len(pre_nodes) else ())):
+                # in-place operators that copy elements of a tree that was explicitly
+                # made partial: the copies are explicitly partial as well
+                self._mark(root)
             if any(a and a[0] == 'attached' for a in _arg_descs(op)):
                 if any(id(n) in self.partial_ok for ns in pre_nodes for n in ns):
                     self._mark(root)
@@ -2203,9 +2215,6 @@ CANARIES_BY_PROP['C03'] = {
         'len(self) < self._value_spec.min_size'),
     'undeclared_key_accepted': _canary(
         _D, 'Dict', '_set_item_without_permission_check', 'if not field:', 'if False:'),
-    'frozen_assignable': _canary(
-        'pyglove.core.typing.value_specs', 'ValueSpecBase', 'apply',
-        'if MISSING_VALUE != value and self.default != value:', 'if False:'),
     'enum_unchecked': _canary(
         'pyglove.core.typing.value_specs', 'Enum', '_validate',
         'if value not in self._values:', 'if False:'),
